@@ -71,12 +71,13 @@ func newRecStore(epoch time.Time) *recStore {
 	return &recStore{MemoryStore: storage.NewMemoryStore(), epoch: epoch, fullCode: map[string]string{}, devUsed: map[string]bool{}}
 }
 
+// sigOf: the signature part of an opaque token ("random.signature") or of a JWT ("header.payload.signature")
 func sigOf(token string) string {
 	parts := strings.Split(token, ".")
-	if len(parts) != 2 {
+	if len(parts) != 2 && len(parts) != 3 {
 		return ""
 	}
-	return parts[1]
+	return parts[len(parts)-1]
 }
 
 func ref(kind byte, raw string) string {
